@@ -86,8 +86,8 @@ type client struct {
 }
 
 func (c client) coq() string {
-	a := map[oidc.AuthMethod]string{oidc.AuthMethodBasic: "ABasic", oidc.AuthMethodPost: "APost", oidc.AuthMethodNone: "ANone"}[c.auth]
-	return emit.Ctor("mkClient", emit.Str(c.id), emit.Str(c.secret), a, emit.Bool(c.dev), emit.Bool(c.refr))
+	a := map[oidc.AuthMethod]string{oidc.AuthMethodBasic: "ABasic", oidc.AuthMethodPost: "APost", oidc.AuthMethodNone: "ANone", oidc.AuthMethodPrivateKeyJWT: "APkjwt"}[c.auth]
+	return emit.Ctor("mkClient", emit.Str(c.id), emit.Str(c.secret), a, emit.Bool(c.dev), emit.Bool(c.refr), emit.Bool(c.jwt))
 }
 
 func (c client) canonical() creds {
@@ -220,6 +220,7 @@ type hist struct {
 	human    []string
 	muts     map[string]bool
 	f21      bool
+	live     bool
 	t0       time.Time
 }
 
@@ -368,25 +369,39 @@ func (h *hist) poll(router opfix.Router, cr creds, dc string, fault string) {
 		fc = map[string]string{"deadline": "FDeadline", "error": "FError"}[fault]
 	}
 	now := time.Now().UnixNano()
-	resp := post(f, router, h.meta(), "/oauth/token", form, cr.basic)
+	m := h.meta()
+	resp := post(f, router, m, "/oauth/token", form, cr.basic)
 	h.st.FaultMethod, h.st.FaultKind = "", ""
-	h.ops = append(h.ops, emit.Ctor("OpPoll", routerCoq(router), cr.coq(), emit.Str(dc), emit.Z(now), fc))
+	h.ops = append(h.ops, emit.Ctor("OpPoll", routerCoq(router), cr.coq(), emit.Str(dc), emit.Z(now), fc, emit.Str(m.host), emit.OptStr(m.fwd)))
 	obs := errResp(resp)
 	if resp.Panic == "" && resp.Status == 200 && resp.Str("access_token") != "" {
 		obs = h.tokens(f, resp)
 	}
 	h.obs = append(h.obs, obs)
-	h.human = append(h.human, fmt.Sprintf("poll %s %+v dc=%q fault=%q -> %d %s", router, cr, dc, fault, resp.Status, clip(resp.Body)))
+	h.human = append(h.human, fmt.Sprintf("poll %s host=%s forwarded=%q %+v dc=%q fault=%q -> %d %s", router, m.host, m.header, cr, dc, fault, resp.Status, clip(resp.Body)))
 }
 
-// tokens projects a token answer: subject and token id from the access token
-// itself, owning client from the storage record of that token id.
+// splitScope is the inverse of the space-delimited rendering of a scope list.
+func splitScope(v string) []string {
+	if v == "" {
+		return nil
+	}
+	return strings.Split(v, " ")
+}
+
+// tokens projects a token answer: subject, token id (and issuer, for a JWT)
+// from the access token itself, owning client and recorded scopes from the
+// storage record of that token id, scope of the answer, (sub, iss) of the ID
+// token, refresh token present.
 func (h *hist) tokens(f *opfix.Fixture, resp *opfix.Resp) string {
 	at := resp.Str("access_token")
 	var id, sub string
+	atiss := emit.None
 	if pl := opfix.JWTPayload(at); pl != nil {
 		id, _ = pl["jti"].(string)
 		sub, _ = pl["sub"].(string)
+		iss, _ := pl["iss"].(string)
+		atiss = emit.Some(emit.Str(iss))
 	} else if s, ok := f.OpenBearer(at); ok {
 		id, sub, _ = strings.Cut(s, ":")
 	} else {
@@ -396,14 +411,19 @@ func (h *hist) tokens(f *opfix.Fixture, resp *opfix.Resp) string {
 	if !ok || tok.Subject != sub {
 		return "ROther"
 	}
-	idsub := emit.None
+	idtok := emit.None
 	if it := resp.Str("id_token"); it != "" {
 		pl := opfix.JWTPayload(it)
 		s, _ := pl["sub"].(string)
-		idsub = emit.Some(emit.Str(s))
+		iss, _ := pl["iss"].(string)
+		idtok = emit.Some(emit.Pair(emit.Str(s), emit.Str(iss)))
 	}
-	scopes := strings.Fields(resp.Str("scope"))
-	return emit.Ctor("RTokens", emit.Str(sub), emit.Str(tok.ClientID), emit.StrList(scopes), idsub, emit.Bool(resp.Str("refresh_token") != ""))
+	scope, isStr := resp.JSON["scope"].(string)
+	if _, present := resp.JSON["scope"]; present && !isStr {
+		return "ROther"
+	}
+	return emit.Ctor("RTokens", emit.Ctor("mkTokens", emit.Str(sub), emit.Str(tok.ClientID), emit.StrList(splitScope(scope)),
+		emit.StrList(tok.Scopes), idtok, atiss, emit.Bool(resp.Str("refresh_token") != "")))
 }
 
 func (h *hist) approve(uc, sub string) {
@@ -427,15 +447,124 @@ func (h *hist) router() opfix.Router {
 	return opfix.Provider
 }
 
-func (h *hist) scopes() []string {
-	voc := []string{"openid", "profile", "email", "offline_access", "api:read", "x"}
+var scopeVoc = []string{"openid", "profile", "email", "offline_access", "api:read", "x"}
+
+// scopes nobody registered, near misses of the standard ones (case, long s,
+// Kelvin sign, a trailing dot), keyword-like literals, characters that need
+// form escaping
+var scopeOdd = []string{"phone", "address", "admin", "urn:example:scope:write", "https://api.example.com/read",
+	"OpenID", "OPENID", "openid.", "Offline_Access", "offline_acce\u017fs", "\u212aey", "null", "NULL", "nil", "undefined", "true", "false", "0", "[]", "{}",
+	"a+b", "a%20b", "a%2Bb", "a&b=c", "q?x=1#f", "caf\u00e9"}
+
+func (h *hist) shuffled(in []string) []string {
+	out := append([]string(nil), in...)
+	for i := len(out) - 1; i > 0; i-- {
+		j := h.r.IntN(i + 1)
+		out[i], out[j] = out[j], out[i]
+	}
+	return out
+}
+
+func (h *hist) subset(voc []string, num, den int) []string {
 	var out []string
 	for _, s := range voc {
-		if h.r.Chance(2, 5) {
+		if h.r.Chance(num, den) {
 			out = append(out, s)
 		}
 	}
 	return out
+}
+
+func insertAt(l []string, pos int, s string) []string {
+	out := make([]string, 0, len(l)+1)
+	out = append(out, l[:pos]...)
+	out = append(out, s)
+	return append(out, l[pos:]...)
+}
+
+// scopes draws the scope list of one device authorization request: no scope
+// parameter, one scope, subsets in the usual and in shuffled order, lists with
+// repeated elements (the repetition at the start, right after the original, in
+// the middle, at the end, several of them, all elements equal), unregistered /
+// near-miss / keyword-like scopes, and long lists (> 1 KiB, > 4 KiB).
+func (h *hist) scopes() []string {
+	k := h.r.IntN(18)
+	switch {
+	case k < 2:
+		h.mut("scopes:none")
+		return nil
+	case k == 2:
+		h.mut("scopes:single")
+		if h.r.Bool() {
+			return []string{drv.Pick(h.r, scopeVoc)}
+		}
+		return []string{drv.Pick(h.r, scopeOdd)}
+	case k < 6:
+		return h.subset(scopeVoc, 2, 5)
+	case k < 8:
+		h.mut("scopes:shuffled")
+		return h.shuffled(h.subset(scopeVoc, 3, 5))
+	case k < 13: // repetitions
+		base := h.shuffled(h.subset(scopeVoc, 1, 2))
+		if len(base) == 0 {
+			base = []string{drv.Pick(h.r, scopeVoc)}
+		}
+		if h.r.Chance(1, 4) {
+			base = append(base, drv.Pick(h.r, scopeOdd))
+		}
+		out := base
+		for n := 1 + h.r.IntN(3); n > 0; n-- {
+			i := h.r.IntN(len(out))
+			s := out[i]
+			switch h.r.IntN(5) {
+			case 0:
+				h.mut("scopes:rep-start")
+				out = insertAt(out, 0, s)
+			case 1:
+				h.mut("scopes:rep-adjacent")
+				out = insertAt(out, i+1, s)
+			case 2:
+				h.mut("scopes:rep-end")
+				out = insertAt(out, len(out), s)
+			case 3:
+				h.mut("scopes:rep-first") // the first element again, somewhere later
+				out = insertAt(out, 1+h.r.IntN(len(out)), out[0])
+			default:
+				h.mut("scopes:rep-middle")
+				out = insertAt(out, h.r.IntN(len(out)+1), s)
+			}
+		}
+		return out
+	case k == 13:
+		h.mut("scopes:allequal")
+		s := drv.Pick(h.r, scopeVoc)
+		out := make([]string, 2+h.r.IntN(4))
+		for i := range out {
+			out[i] = s
+		}
+		return out
+	case k == 14: // many scopes, beyond 1 KiB / 4 KiB of scope parameter
+		h.mut("scopes:many")
+		n := 20 + h.r.IntN(60)
+		out := make([]string, 0, n+4)
+		for i := 0; i < n; i++ {
+			s := fmt.Sprintf("res%02d:read", i)
+			if h.r.Chance(1, 6) {
+				s += strings.Repeat("y", 100+h.r.IntN(300))
+			}
+			out = append(out, s)
+		}
+		for _, s := range h.subset([]string{"openid", "offline_access", "profile"}, 2, 3) {
+			out = insertAt(out, h.r.IntN(len(out)+1), s)
+		}
+		if h.r.Bool() {
+			out = insertAt(out, h.r.IntN(len(out)+1), out[h.r.IntN(len(out))])
+		}
+		return out
+	default:
+		h.mut("scopes:odd")
+		return h.shuffled(append(h.subset(scopeVoc, 2, 5), h.subset(scopeOdd, 1, 8)...))
+	}
 }
 
 func (h *hist) pickClient() int { return h.r.IntN(len(h.clients)) }
@@ -446,7 +575,14 @@ func (h *hist) mut(name string) { h.muts[name] = true }
 func (h *hist) badCreds(i int) creds {
 	c := h.clients[i]
 	other := h.clients[(i+1)%len(h.clients)]
-	switch h.r.IntN(8) {
+	switch h.r.IntN(12) {
+	case 8, 9: // a client id that differs from the registered one only by case, white space or a trailing slash
+		h.mut("nearmissid")
+		id := drv.Pick(h.r, []string{strings.ToUpper(c.id), strings.ToUpper(c.id[:1]) + c.id[1:], c.id + " ", " " + c.id, c.id + "/", c.id + "\n", c.id + "\t"})
+		if c.auth == oidc.AuthMethodNone || h.r.Chance(1, 3) {
+			return creds{id: id}
+		}
+		return creds{basic: []string{id, c.secret}}
 	case 0:
 		h.mut("wrongsecret")
 		return creds{basic: []string{c.id, c.secret + "x"}}
@@ -465,7 +601,7 @@ func (h *hist) badCreds(i int) creds {
 	case 5:
 		h.mut("ghost")
 		return creds{id: "ghost"}
-	case 6:
+	case 6, 10, 11: // Basic header of one client, client_id form field of another
 		h.mut("mixed")
 		cr := other.canonical()
 		cr.id = c.id
@@ -479,7 +615,7 @@ func (h *hist) badCreds(i int) creds {
 func (h *hist) startFlow() {
 	i := h.pickClient()
 	cr := h.clients[i].canonical()
-	if h.r.Chance(1, 8) {
+	if h.r.Chance(1, 6) {
 		cr = h.badCreds(i)
 	}
 	// the client the request claims to be owns whatever is issued
@@ -513,7 +649,8 @@ func (h *hist) pollMutated(d issued) {
 		h.poll(h.router(), h.badCreds(d.owner), d.dc, "")
 	case 3:
 		h.mut("unknowncode")
-		h.poll(h.router(), h.clients[d.owner].canonical(), drv.Pick(h.r, []string{"AAAAAAAAAAAAAAAAAAAAAA", d.dc + "A", d.dc[:len(d.dc)-1], strings.ToLower(d.dc)}), "")
+		h.poll(h.router(), h.clients[d.owner].canonical(), drv.Pick(h.r, []string{"AAAAAAAAAAAAAAAAAAAAAA", d.dc + "A", d.dc[:len(d.dc)-1], strings.ToLower(d.dc), strings.ToUpper(d.dc),
+			d.dc + " ", " " + d.dc, d.dc + "\n", "\t" + d.dc, d.dc + "\r\n", d.dc + "%20", d.dc + "=", d.dc + "==", "null", "undefined", "true", "0", "[]", "{}"}), "")
 	case 4:
 		h.mut("usercodeascode")
 		h.poll(h.router(), h.clients[d.owner].canonical(), d.uc, "")
@@ -560,15 +697,19 @@ func historyCase(r drv.Rand, w *emit.Writer, extra map[string]int) {
 		{id: "web2", secret: sec(), web: true, auth: oidc.AuthMethodPost, dev: true, refr: r.Bool(), jwt: true},
 		{id: "spa", web: false, auth: oidc.AuthMethodNone, dev: true, refr: false, jwt: true},
 		{id: "nodev", secret: sec(), web: true, auth: oidc.AuthMethodBasic, dev: false, refr: true},
+		// registered for private_key_jwt: no request of this driver carries an assertion, so it never gets tokens
+		{id: "jwtc", secret: sec(), web: true, auth: oidc.AuthMethodPrivateKeyJWT, dev: true, refr: true},
 	}
 	h.clients = pool[:2]
 	if r.Chance(2, 3) {
-		h.clients = append(h.clients, pool[2+r.IntN(3)])
+		h.clients = append(h.clients, pool[2+r.IntN(drv.Pick(r, []int{3, 3, 3, 4}))])
 	}
 	if r.Bool() {
 		h.clients[0], h.clients[1] = h.clients[1], h.clients[0]
 	}
 	h.st = refstore.New(opfix.DefaultSigning())
+	h.live = r.Chance(1, 3) // the storage hands out its live device state (as the example storage does) instead of copies
+	h.st.SetLiveDeviceState(h.live)
 	for _, c := range h.clients {
 		grants := []oidc.GrantType{oidc.GrantTypeCode}
 		if c.dev {
@@ -616,7 +757,7 @@ func historyCase(r drv.Rand, w *emit.Writer, extra map[string]int) {
 		case k < 6:
 			h.pollGood(d)
 		case k < 10:
-			h.approve(d.uc, drv.Pick(r, []string{"alice", "bob", "carol"}))
+			h.approve(d.uc, drv.Pick(r, []string{"alice", "bob", "carol", "alice", "bob", "dave:1", "ALICE", "bob@example.com"}))
 			for j := range h.devs {
 				if h.devs[j].dc == d.dc {
 					mustPoll = j
@@ -672,6 +813,11 @@ func historyCase(r drv.Rand, w *emit.Writer, extra map[string]int) {
 	if h.f21 {
 		tags = append(tags, "f21=1")
 	}
+	if h.live {
+		tags = append(tags, "devstate=live")
+	} else {
+		tags = append(tags, "devstate=copy")
+	}
 	for m := range h.muts {
 		w.Count("mut=" + m)
 	}
@@ -705,7 +851,7 @@ func main() {
 			Observed: emit.Ctor("OUserCode", emit.Some(emit.Str("BA"))), Tags: []string{"kind=selftest"}})
 	}
 	err := w.Close(emit.Meta{Property: "C16", Tier: cfg.Tier, Seed: cfg.Seed,
-		Rule: "2 of 3 cases: a history of 6-15 device_authorization/approve/deny/poll operations by 2-3 clients (confidential web, public native, optionally a post/JWT/spa/no-device-grant client) on both routers over one refstore; the provider's issuer is static (with or without a path component) or derived from every request (IssuerFromHost / IssuerFromForwardedOrHost) and every request arrives under its own Host / Forwarded header, so one provider instance serves device authorizations under different issuers; UserFormPath or the deprecated absolute UserFormURL: flow-first (start a flow with canonical credentials, poll, approve, poll) with mutations (foreign client, wrong/missing/post credentials, unknown code, user code as device code, storage deadline/error, bogus user codes, expired devices via negative lifetime, exhausted random source); 1 of 3 cases: op.NewUserCode directly with crypto/rand.Reader pinned (alphabets incl. non-ASCII, 1, 256 and 300 runes, dash 0 / 1 / >= n, F17 classes). Non-trivial = a history in which a device code was issued, or a produced user code; distinct = distinct (input hash, set of answer kinds).",
+		Rule:  "2 of 3 cases: a history of 6-15 device_authorization/approve/deny/poll operations by 2-3 clients (confidential web, public native, optionally a post/JWT/spa/no-device-grant client) on both routers over one refstore; the provider's issuer is static (with or without a path component) or derived from every request (IssuerFromHost / IssuerFromForwardedOrHost) and every request - device authorization and token request alike - arrives under its own Host / Forwarded header, so one provider instance serves requests under different issuers (iss of the ID token / JWT access token is observed); the storage hands out copies of its device state or the live state (devstate=); scope lists: none, single, subsets in usual / shuffled order, repetitions at the start / adjacent / middle / end / of the first element, all elements equal, 20-80 scopes beyond 1 and 4 KiB, unregistered / near-miss (case, U+017F, U+212A) / keyword-like scopes; UserFormPath or the deprecated absolute UserFormURL: flow-first (start a flow with canonical credentials, poll, approve, poll) with mutations (foreign client, wrong/missing/post/mixed credentials, client ids that differ by case / white space / trailing slash, a private_key_jwt client without assertion, unknown code incl. case / white-space / padding / keyword variants of an issued one, user code as device code, storage deadline/error, bogus user codes, expired devices via negative lifetime, exhausted random source); 1 of 3 cases: op.NewUserCode directly with crypto/rand.Reader pinned (alphabets incl. non-ASCII, 1, 256 and 300 runes, dash 0 / 1 / >= n, F17 classes). Non-trivial = a history in which a device code was issued, or a produced user code; distinct = distinct (input hash, set of answer kinds).",
 		Extra: map[string]any{"clock_ambiguous": extra["clock_ambiguous"]},
 		Notes: []string{"f17=1: user-code configurations that made op.NewUserCode panic before fix F17; f21=1: a client without the device grant starts a flow on the Legacy router (former defect F21, fixed by C05)"},
 	})
